@@ -46,7 +46,7 @@ OBLIGATIONS = [
     "C10_orthonormal", "C10_orthonormal_metric_refuted", "C10_basis_collinear_branches", "C10_mixing_orthogonal_branches",
     "C10_orthonormal_nonzero_direction",
     # extension: every copy of _center_xi_realizations, the mixture model
-    "C10_script_all_classes", "C10_gauge_mixture", "C10_mixture_orthogonal", "C10_mixture_sources_centring_refuted",
+    "C10_script_all_classes", "C10_step_is_pure_gauge_all_classes", "C10_gauge_mixture", "C10_mixture_orthogonal", "C10_mixture_sources_centring_refuted",
 ]
 
 KINDS_GAUGE = ["logistic", "linear", "joint"]          # model kinds with the re-centring step
